@@ -226,6 +226,13 @@ def oracle_history(case):
                 if changed_between:
                     classes.add("restore-after-change")
             elif k == "restore_tasks":
+                # work happened on every backed-up file since the backup, so a restore of any of them is visible
+                for f in model:
+                    fp_ = os.path.join(root, f)
+                    if os.path.isfile(fp_):
+                        with open(fp_, "ab") as fh:
+                            fh.write(b"edited\n")
+                changed_between = True
                 before = {f: (read(os.path.join(root, f)), os.stat(os.path.join(root, f)).st_mtime_ns)
                           for f in snapshot_dir(root) if not f.startswith("derivatives" + os.sep)}
                 man.restore_backup(name, task_names=op["tasks"], verbose=False)
